@@ -16,7 +16,7 @@ from vmon import bits
 LEVEL = "exploration"
 SHARDS = {"quick": 8, "thorough": 16}
 MUST = ["battery.int", "battery.float", "battery.str", "battery.bytes", "battery.bool", "copy.values", "copy.packets",
-        "rawdefault.checks", "harvested.values"]
+        "rawdefault.checks", "rewrap.checks", "rewrap.compared", "harvested.values", "harvested.class_vs_model"]
 RULE = ("for every (class, value, raw_value) case the harness builds v = Class(value[, raw_value]) and the plain "
         "built-in twin, runs ~60 operations on both (comparison, hash, bool, repr/str/format, arithmetic, "
         "conversion, slicing, containment, codec, dict-key and sort use) and compares outcome and outcome type "
@@ -180,6 +180,25 @@ def check_value(ctx, cls, kind, base, value, raw, has_raw, origin="directed"):
             # no separate raw value: raw_value equals the value itself (also for 0 / False / "" / b"")
             if not same(plain(rv), plain(twin)) or not isinstance(rv, base if kind != "bool" else int):
                 ctx.violation(f"raw_value/default/{cls.__name__}/{category(value)}", f"raw_value {rv!r} != value {twin!r}", wit)
+    # ---- a value object used as the drop-in built-in when constructing another value without a raw value: like the
+    # plain built-in, it has no separate raw value to hand over
+    compat = {"int": ("IntParameter", "FloatParameter"), "bool": ("IntParameter", "FloatParameter", "BoolParameter"),
+              "float": ("FloatParameter",), "str": ("StrParameter",), "bytes": ("BinaryParameter",)}[kind]
+    for cname in compat:
+        c2 = getattr(common, cname)
+        if kind == "float" and value != value:
+            continue
+        a, b = outcome(lambda: c2(v)), outcome(lambda: c2(twin))
+        ctx.count("rewrap.checks")
+        if a[0] != b[0]:
+            ctx.violation(f"rewrap/{cls.__name__}->{cname}/outcome", f"{cname}({cls.__name__} value) -> {a}, {cname}(built-in) -> {b}", wit)
+        elif a[0] == "ok":
+            x, y = a[1], b[1]
+            ctx.count("rewrap.compared")
+            if not same(plain(x), plain(y)) or type(plain(x.raw_value)) is not type(plain(y.raw_value)) or not same(plain(x.raw_value), plain(y.raw_value)):
+                ctx.violation(f"rewrap/{cls.__name__}->{cname}/{'raw_value' if same(plain(x), plain(y)) else 'value'}",
+                              f"{cname}({cls.__name__}({value!r}, raw {getattr(v, 'raw_value', None)!r})) has value {x!r} raw_value {x.raw_value!r}; "
+                              f"built from the plain built-in: value {y!r} raw_value {y.raw_value!r}", wit)
     # ---- the battery -------------------------------------------------------------------------------------
     ops = ops_numeric(kind) if kind in ("int", "float", "bool") else ops_str() if kind == "str" else ops_bytes()
     int_twin = int(value) if kind == "bool" else None
@@ -346,11 +365,12 @@ def harvest_generated(ctx):
     kinds = {common.IntParameter: ("int", int), common.FloatParameter: ("float", float), common.StrParameter: ("str", str),
              common.BinaryParameter: ("bytes", bytes), common.BoolParameter: ("bool", bool)}
     seen = set()
-    for d in range(ctx.size(48, 1500)):
+    for d in range(ctx.size(192, 3000)):
         if not ctx.mine(d):
             continue
         rng = ctx.rng("gen", d)
-        doc = gen.gen_document(rng)
+        # every second document leans on calibrators (context calibrators that apply / do not apply, with / without default)
+        doc = gen.gen_document(rng, gen.Profile(p_context=0.85, p_calibrated=0.7, max_entries=5) if d % 2 else None)
         ld = monitored(load_definition, render.render_doc(doc))
         if ld.exc is not None:
             continue
@@ -360,6 +380,21 @@ def harvest_generated(ctx):
             if step.exc is not None:
                 continue
             check_packet_copy(ctx, step.value, origin=f"generated:{d}")
+            # "the matching built-in type": the type the parameter's definition calls for (reference model), not merely one of the five
+            from vmon import ref
+            mo = ref.walk(doc, raw)
+            if mo.status == "ok":
+                want_cls = {"int": common.IntParameter, "float": common.FloatParameter, "str": common.StrParameter,
+                            "bytes": common.BinaryParameter, "bool": common.BoolParameter}
+                for mname, mv in mo.items:
+                    lv = step.value.get(mname)
+                    if lv is None or mv.dontcare or mv.cls not in want_cls:
+                        continue
+                    ctx.count("harvested.class_vs_model")
+                    if type(lv) is not want_cls[mv.cls]:
+                        ctx.violation(f"harvest/class-vs-definition/{info.feat.get(mname, '?')}/{type(lv).__name__}-not-{mv.cls}",
+                                      f"parsed value {mname} is a {type(lv).__name__} ({lv!r}, raw {getattr(lv, 'raw_value', None)!r}); its definition calls for {mv.cls}",
+                                      {"doc": d, "parameter": mname, "feature": info.feat.get(mname)})
             for name, val in step.value.items():
                 cls = type(val)
                 if cls not in kinds:
